@@ -14,7 +14,8 @@ def run(ctx):
                 "without the extra labels real files carry; every planted error (no Count, no Info, record without name, "
                 "range past the end / starting past the end) on every record; thorough adds seeded pseudo-random layouts "
                 "with 4..7 files. spec->impl: arc::from_bytes on BinFormat!Canon(content) (and on the image mila's own "
-                "writer builds from the content when it differs) compared with the reference extraction as a map, or "
+                "writer builds from the content when it differs, and for <= 2 files on a non-canonical image: reversed tables, "
+                "duplicated text section) compared with the reference extraction as a map, or "
                 "required to be Err. impl->spec: seeded random arcs up to 60 files built by the harness plus ArcTest.arc; "
                 "TLC decides conformance of the logged content and the allowed result. Non-trivial = at least one file "
                 "or a planted error.")
@@ -40,7 +41,7 @@ def run(ctx):
     mid = cases[len(cases) // 2]
     ctx.sample({"replayed_layout": {"kind": mid["kind"], "padded": mid["padded"], "files": len(mid["v"]),
                                     "data_bytes": len(mid["content"]["data"]), "image_bytes": len(mid["image"]),
-                                    "labels": mid["content"]["labels"]}})
+                                    "labels": [[a, ["".join(map(chr, n)) for n in names]] for a, names in mid["content"]["labels"]]}})
     # impl -> spec
     runs, max_files = ctx.pick((400, 60), (10000, 60))
     tpath = ctx.path("arc_trace.ndjson")
